@@ -426,3 +426,79 @@ def rule_store_order(ctx, R, arch):
         ok = max(k for k, _ in ints) < min(k for k, _ in fps) and not (bi & bf)
         R.check(ok, inst, where, expected='every integer-register store (through %s) before every f-register store (through %s)' % (sorted(bi), sorted(bf)),
                 found='last integer store at %s, first f store at %s' % (P.name_at(max(ints)[1].addr), P.name_at(min(fps)[1].addr)))
+
+
+# ---------------------------------------------------------------------------------------------------------------------------
+# [RVV-RT-GENINPUT]  registers that generated program code only reads are left alone by every piece of the hand-written loop
+def rule_rvv_geninput(ctx, R):
+    from domains import KB
+    from rules import rvhsem as V
+    R.rule('RVV-RT-GENINPUT', 'a register that the code generated by the vector RISC-V back-end reads without ever writing it (the CBRANCH mask source, the scratchpad base and masks) is an input the hand-written runtime provides: '
+           'every piece of the static loop that can run between two programs leaves it with its entry value (or reloads the table entry the prologue loaded it from); the registers are collected by executing every '
+           'instruction handler of the generator on known bits and disassembling the words it emits', min_instances=3)
+    cfg = RT_PROGRAM['rvv']
+    F, hs = jit.handlers(ctx, 'rvv')
+    R.saw(config='K3', unit='src/jit_compiler_rv64_vector.cpp')
+    words = []
+    spans = []
+    for name, h in sorted(hs.items()):
+        for d, s_, mod, imm in ((3, 1, 0x21, 0x12345678), (5, 5, 0xE0, 0xFFFFF800), (0, 7, 0x03, 0x40)):
+            fields = {'dst': KB.const(8, d), 'src': KB.const(8, s_), 'mod': KB.const(8, mod)}
+            ov = {'randomx::Instruction::getImm32': KB.const(32, imm), 'randomx::Instruction::getModShift': KB.const(32, (mod >> 2) & 3), 'randomx::Instruction::getModMem': KB.const(32, mod & 3),
+                  'randomx::Instruction::getModCond': KB.const(32, mod >> 4)}
+            ex = V.RvExec(F, fields, ov)
+            try:
+                ex.run(h.f, [])
+            except Exception:
+                pass                        # the words emitted up to a construct the executor does not follow still count
+            ws = [(sz, w.value()) for sz, w, wh in ex.words if w.value() is not None]
+            spans.append((name, len(words), len(words) + len(ws)))
+            words += ws
+    if len(words) < 100:
+        raise AnalysisBroken('RVV-RT-GENINPUT: only %d words collected from the generator' % len(words))
+    ins = rtasm.disasm_words(ctx, words)
+    if len(ins) != len(words):
+        raise AnalysisBroken('RVV-RT-GENINPUT: %d words disassemble to %d instructions' % (len(words), len(ins)))
+    exposed, written = {}, set()
+    for name, a, b in spans:
+        wr = set()
+        for i in ins[a:b]:
+            for r in i.uses:
+                if r.startswith('x') and r not in wr:
+                    exposed.setdefault(r, name)
+            for r in i.defs:
+                wr.add(r)
+                written.add(r)
+    inputs = sorted((r for r in exposed if r not in written and r != 'x2'), key=lambda r: int(r[1:]))
+    if not inputs:
+        raise AnalysisBroken('RVV-RT-GENINPUT: generated code has no read-only integer register')
+    P = rtasm.Prog(ctx.obj('rvv'), 'rv')
+    R.saw(unit=cfg['src'], config='K3')
+    entry, loop, end = P.sym(cfg['entry']), P.sym(cfg['loop']), P.sym(cfg['end'])
+    f0 = rtasm.Frame(P)
+    f0.run(entry, stop={loop})
+    base = {r: v for r, v in f0.reg.items() if v[0] == 'mem'}
+    inv = {r: v for r, v in f0.reg.items() if v[0] == 'addr'}
+    starts = _pieces(P, loop, end)
+    for r in inputs:
+        bad = None          # (a register the prologue does not write is an incoming argument of the program function)
+        for a0 in starts:
+            # pieces on the way out of the loop (they end in the return of the program function) restore the caller's registers
+            fx = rtasm.Frame(P)
+            at, why = fx.run(a0, stop={loop})
+            if why != 'stop':
+                continue
+            f = rtasm.Frame(P)
+            f.reg.update(inv)
+            f.run(a0, stop={loop, end} | set(starts))
+            if r in f.written and not f.opaque:
+                v = f.get(r)
+                if v != ('init', r) and not (r in base and v == base[r]):
+                    bad = (a0, v)
+                    break
+        if bad:
+            v = bad[1]
+            R.violation('%s (read by generated %s code)' % (r, exposed[r]), '%s:%s' % (cfg['src'], P.name_at(bad[0])), expected='left with its entry value by every piece of the loop',
+                        found='the piece at %s leaves %s' % (P.name_at(bad[0]), ('the entry value of %s' % v[1]) if v[0] == 'init' else ('a value computed at %s' % P.name_at(v[1])) if v[0] == 'other' and isinstance(v[1], int) else str(v)))
+        else:
+            R.ok('%s (read by generated %s code)' % (r, exposed[r]), '%s:%s' % (cfg['src'], cfg['loop']))
